@@ -135,7 +135,7 @@ def observe_batch(bd, args, batch):
                 d = t["data"]
                 for i in (1, 2, 3):
                     for kind_dir in (False, True):
-                        for j in range(0, 4):
+                        for j in range(0, 10):
                             if d == tag_pixels(tag_byte(i, kind_dir, j), k):
                                 tg = [i, j]
             tex.append(tg if tg is not None else ["?", (t or {}).get("data", b"").hex() if t else None])
@@ -146,7 +146,7 @@ def observe_batch(bd, args, batch):
             else:
                 known = False
                 for i in (1, 2, 3):
-                    for j in range(1, 4):
+                    for j in range(1, 10):
                         if pr == prio_of(k, i, j):
                             hv = [i, j]
                             known = True
@@ -223,7 +223,7 @@ def replay_cases(chk, cases, wd, batch_size, individual_stride):
 
 
 def gen_cfgs(quick):
-    return ["s3p2", "s2p3"] if quick else ["s3p3", "deep"]
+    return ["s3p2", "s2p3", "same"] if quick else ["s3p3", "deep", "same"]
 
 
 def run_gen(cfg, workers):
